@@ -9,13 +9,16 @@
      4  real witness stack does not match the regenerated witness shape
      5  tx fields set by the real *Spend* function differ from the regenerated *_tx function
      6  LockTimeToSequence sample differs from the model
+     7  tapscript sig-ops budget 50 + wire.TxWitness.SerializeSize differs from Spend.tap_budget
+   Key-path taproot spends carry no script: only checks 4/5 apply ([c_run] = false).
    Executable definitions only. *)
 From Coq Require Import List NArith ZArith Bool.
-From LV Require Import Script.Interp Script.Parse Script.Witness.
+From LV Require Import Script.Interp Script.Parse Script.Witness Script.Spend.
 Import ListNotations.
 Local Open Scope N_scope.
 
 Record scase := mkCase {
+  c_run : bool;                           (* false: key-path spend, nothing to interpret *)
   c_ver : sver;
   c_script : bytes;                       (* executed script, raw bytes *)
   c_tmpl : option (list instr);           (* template instantiation it must equal *)
@@ -72,6 +75,7 @@ Definition check_case (c : scase) : list N :=
     | _, None => []
     end in
   let e23 :=
+    if negb (c_run c) then [] else
     match parsed with
     | None => if c_engine_ok c then [2] else []      (* unparsable script: engine must reject *)
     | Some p =>
@@ -94,7 +98,12 @@ Definition check_case (c : scase) : list N :=
   let e6 :=
     if forallb (fun t => let '(s, i, o) := t in lock_time_to_sequence s i =? o) (c_lts c)
     then [] else [6] in
-  e1 ++ e23 ++ e4 ++ e5 ++ e6.
+  let e7 :=
+    match c_ver c, c_wit c with
+    | Tapscript, Some (_, w) => if c_run c && negb (tap_budget w =? c_budget c)%Z then [7] else []
+    | _, _ => []
+    end in
+  e1 ++ e23 ++ e4 ++ e5 ++ e6 ++ e7.
 
 Fixpoint mismatches (cases : list scase) (i : N) : list (N * list N) :=
   match cases with
